@@ -16,6 +16,7 @@ def run(chk):
     chk.mc('MC_Bitwise.tla', 'MC_Bitwise_thorough.cfg' if thorough else 'MC_Bitwise.cfg')
     L = 4 if thorough else 3
     common.run_families(chk, [('bitwise', L, 2, L)], CLASSES, lsb0_modes=(False, True))
+    common.mc_core_vacuity(chk, 'bitwise')
     chk.exhaustive = True
     common.run_random(chk, drivers.c16_program, 6000 if thorough else 1500, 16)
     common.run_random(chk, drivers.c16_program, 2000 if thorough else 400, 17, lsb0=True)
